@@ -968,6 +968,12 @@ def random_case(ctx, ES, k):
     ts = irregular(r, T) if r.random() < 0.5 else None
     taumax = float(r.choice([INF, INF, 0.0, 0.5, 1.0, 2.0, 3.0, 5.0]))
     lag = float(r.choice([0.0, 0.0, 0.0, 0.5, 1.0, 2.0]))
+    if r.random() < 0.2:
+        # the second series shifted the other way; in particular by exactly
+        # the coincidence window
+        lag = -lag if (lag and r.random() < 0.5) else (
+            -taumax if taumax not in (INF, 0.0) else -1.0)
+        ctx.count("negative_lag_cases")
     dt = str(r.choice(["int", "float", "int8", "bool"]))
     M = M.astype({"int": int, "float": float, "int8": np.int8,
                   "bool": bool}[dt])
